@@ -12,9 +12,14 @@
 (* look exactly as the abstract dictionary says (id, pronunciation through *)
 (* decoder_lookup_word and through the dict macros, stored spelling, base, *)
 (* and the alternate links of the base visiting exactly its alternates).   *)
+(* The pronunciation of an Add event is what DictAbs!PhoneTokens makes of  *)
+(* the BYTES handed to decoder_add_word; an accepted word must be realised *)
+(* by the acoustic models of that pronunciation (DictAbs!Realised).        *)
 (* Use events: a grammar/alignment over present words loads, over an       *)
 (* absent word does not; a decode reports every word under the spelling of *)
-(* its base entry and the segmentation names the word or an alternate.     *)
+(* its base entry and the segmentation names the word or an alternate;     *)
+(* with a twin decoder (dictionary file = loaded file + the added words)   *)
+(* the two dictionaries are the same value and the two results are equal.  *)
 (* Executions are concatenated; a Header starts a fresh decoder.           *)
 (***************************************************************************)
 EXTENDS Integers, Sequences, FiniteSets, TLC, Json, IOUtils
@@ -37,6 +42,13 @@ phs == {hdr.phones[i] : i \in DOMAIN hdr.phones}
 nc == hdr.nocase = 1
 C(s) == Canon(nc, s)
 Rng(t) == {t[i] : i \in DOMAIN t}
+\* names the clause that rejected event l (tools/vlib/tracecheck.py picks it up for the violation key)
+Clause(name, cond) == IF cond THEN TRUE ELSE PrintT(<<"CLAUSE-FAILED", name, l>>) /\ FALSE
+
+\* phone string (bytes) -> pronunciation (phone names; "?" for a token that names no phone of the model)
+NameOf(t) == IF \E i \in DOMAIN hdr.phb : hdr.phb[i] = t
+             THEN hdr.phones[CHOOSE i \in DOMAIN hdr.phb : hdr.phb[i] = t] ELSE "?"
+PronOf(raw) == LET ts == PhoneTokens(raw) IN [k \in DOMAIN ts |-> NameOf(ts[k])]
 
 \* alts[b] caches AltsOf(dict, b) for every base id b in view (checked against the definition at Check events)
 AltsExact(D, a) == \A b \in DOMAIN a : a[b] = AltsOf(D, b)
@@ -75,7 +87,8 @@ THeader ==
 TAdd ==
     /\ Ev.e = "Add"
     /\ LET s == hdr.sp[Ev.s]
-           r == Add(dict, nc, phs, s, Ev.toks)
+           p == PronOf(Ev.raw)
+           r == Add(dict, nc, phs, s, p)
            a2 == IF r.ret < 0 THEN alts
                  ELSE IF IsAlt(s)
                       THEN LET b == r.dict.ent[C(s)].base
@@ -83,6 +96,7 @@ TAdd ==
                               ELSE (b :> {r.ret}) @@ alts
                       ELSE (r.ret :> {}) @@ alts
        IN /\ IF r.ret >= 0 THEN Ev.ret = r.ret ELSE Ev.ret < 0    \* new id, or failure reported
+          /\ r.ret >= 0 => Clause("realised", Realised(p, Ev.d2p))  \* ... and it is that pronunciation the search will use
           /\ AllObsOK(r.dict, a2)
           /\ dict' = r.dict
           /\ alts' = a2
@@ -99,6 +113,7 @@ TCheck ==
 TScan ==
     /\ Ev.e = "Scan"
     /\ Ev.n = dict.n /\ Ev.selfmap = dict.n /\ Ev.presum = hdr.presum
+    /\ Clause("all-realised", Ev.d2pbad = 0)   \* every entry, old or new, is realised by its own pronunciation
     /\ UNCHANGED <<dict, alts, h>>
 
 TUse ==
@@ -111,7 +126,11 @@ TUse ==
                                  /\ Ev.called = 1 => Ev.ret = 0      \* usable immediately in a grammar
           /\ Ev.kind = "align" => /\ Ev.called = 1
                                   /\ (Ev.ret = 0) <=> (absent = {})  \* ... and in an alignment text
-          /\ (loaded /\ Ev.dec = 1) =>
+          /\ (Ev.twin # <<>> /\ Ev.twin[1] = 1) =>
+                \* file + added words = the dictionary reached by adding, hence the same hypothesis, score, segmentation
+                /\ Clause("twin-same-dictionary", SameValue(dict, Ev.twin[2], Ev.twin[3]))
+                /\ Clause("twin-same-result", SameResult(Ev.twin[4], Ev.twin[5]))
+          /\ (loaded /\ Ev.dec >= 1) =>
                 /\ Ev.expect = 1 => Ev.hf = 1
                 /\ Ev.hf = 1 =>
                       /\ Len(Ev.hyp) = Len(Ev.words)
